@@ -252,7 +252,7 @@ func (h *harness) evalGroups(groups []*Group, random int, report bool) map[*Grou
 		if replies == nil || i < 0 {
 			return ""
 		}
-		return replies[i]
+		return nilEnums(replies[i])
 	}
 	for gi, g := range groups {
 		s := slots[gi]
@@ -884,6 +884,31 @@ func shapes(b hx.Sexp, t *Ty) []hx.Sexp {
 	return out
 }
 
+// exhaustiveNilEnum: an enum value declared without a Go value, at nullable positions, through every
+// spelling: all of them hand the resolver nil (the literal route, the variable route, defaults).
+func (h *harness) exhaustiveNilEnum() {
+	in := &InputDef{Name: "Sh", Fields: []*Field{{Name: "l", Ty: listTy(shadeTy)}, {Name: "s", Ty: shadeTy}}}
+	types := []*Ty{shadeTy, listTy(shadeTy), listTy(listTy(shadeTy)), inputTy(in), listTy(inputTy(in))} // no non-null position anywhere
+	pale, dark := cvEnum("PALE"), cvEnum("DARK")
+	values := []hx.Sexp{pale, dark, cvNull, cvEnum("RED"), cvStr("PALE"), cvList(pale), cvList(pale, dark, cvNull), cvList(cvList(pale, dark)),
+		hx.N("obj", kv("s", pale)), hx.N("obj", kv("l", cvList(dark, pale)), kv("s", dark)), hx.N("obj", kv("l", pale)),
+		cvList(hx.N("obj", kv("s", pale)))}
+	var groups []*Group
+	for _, t := range types {
+		groups = append(groups, newGroup("field", t, nil, nil, false))
+		for _, v := range values {
+			v := v
+			g := newGroup("field", t, nil, &v, false)
+			g.Routes = t == shadeTy || t.K == "input"
+			groups = append(groups, g)
+			if t.K != "nn" {
+				groups = append(groups, newGroup("directive", t, nil, &v, false))
+			}
+		}
+	}
+	h.evalGroups(groups, 2, true)
+}
+
 func (h *harness) exhaustive() {
 	run := h.run
 	var groups []*Group
@@ -1381,6 +1406,7 @@ func main() {
 		run.Count("corpus")
 	}
 	h.exhaustive()
+	h.exhaustiveNilEnum()
 	h.exhaustiveGoKinds()
 	h.dateTimeShapes(run.Scale(3000, 60000))
 	run.Note("exhaustive part: 7 scalars + 2 enums × wrapper forms × every boundary value (in 2–5 list shapes) × the deterministic spellings; @skip/@include × 8 values")
